@@ -5,6 +5,7 @@ CONSTANTS
   CompSets <- AllCompSets
   Limits <- Lims
   MaxThr <- Thrs
+  LtaHalf = FALSE
   Export = TRUE
 INIT Init
 NEXT Next
